@@ -1414,6 +1414,7 @@ def analyse_ambiguity(pattern, flags, bound=6):
     res['divergence_points'] = n_div
     deg, chain, links = A.find_ida()
     res['ida_degree'] = deg
+    res['approx'] = list(dict.fromkeys(A.approx))
     if deg:
         last = chain[-1]
         word = links[(chain[-2], chain[-1])]
